@@ -55,39 +55,39 @@ func (o obs) String() string {
 
 // c13Progs: the C14 pool plus print / sharing / multi-entry-map programs.
 var c13Extra = []Prog{
-	{"print(n) + 1", "map", false},
-	{"print(l)", "struct", false},
-	{"print(m)", "map", false},
-	{"if(b, print(\"yes\"), print(\"no\"))", "map", false},
-	{"print(tr(o))", "map", true},
-	{"[print(tr(1)), print(tr(2))]", "none", true},
-	{"[l, l]", "map", false},
-	{"[o, o]", "struct", false},
-	{"{a: m, b: m}", "map", false},
-	{"string([l, l])", "map", false},
-	{"string({a: o, b: o})", "map", false},
-	{"[ll, ll]", "map", false},
-	{"string(mo)", "map", false},
-	{"mo", "struct", false},
-	{"mi", "map", false},
-	{"string(mi)", "struct", false},
-	{"string([\"z\": 1, \"a\": 2, \"m\": 3, \"b\": 4, \"y\": 5])", "none", false},
-	{"[\"z\": 1, \"a\": 2, \"m\": 3, \"b\": 4, \"y\": 5]", "none", false},
-	{"string([3: \"c\", 1: \"a\", 2: \"b\", 10: \"j\"])", "none", false},
-	{"[true: 1, false: 2]", "none", false},
-	{"string(['2020-01-02 00:00:00 UTC': 1, '2019-01-02 00:00:00 UTC': 2])", "none", false},
-	{"union([m, m], [m])", "map", false},
-	{"union([[1: 2, 3: 4, 5: 6]], [[5: 6, 3: 4, 1: 2]])", "none", false},
-	{"intersect([mi], [mi])", "struct", false},
-	{"diff([o, o], [])", "map", false},
-	{"union(lo, lo)", "map", false},
-	{"[m, m] == [m, m]", "map", false},
-	{"string(p)", "map", false},
-	{"p", "struct", false},
-	{"[p, p]", "map", false},
-	{"string(union(l, l))", "map", false},
-	{"get(mo, \"u\", o)", "map", false},
-	{"{x: get(mo, \"nope\", o), y: o}", "struct", false},
+	{"print(n) + 1", "map", false, false},
+	{"print(l)", "struct", false, false},
+	{"print(m)", "map", false, false},
+	{"if(b, print(\"yes\"), print(\"no\"))", "map", false, false},
+	{"print(tr(o))", "map", true, false},
+	{"[print(tr(1)), print(tr(2))]", "none", true, false},
+	{"[l, l]", "map", false, false},
+	{"[o, o]", "struct", false, false},
+	{"{a: m, b: m}", "map", false, false},
+	{"string([l, l])", "map", false, false},
+	{"string({a: o, b: o})", "map", false, false},
+	{"[ll, ll]", "map", false, false},
+	{"string(mo)", "map", false, false},
+	{"mo", "struct", false, false},
+	{"mi", "map", false, false},
+	{"string(mi)", "struct", false, false},
+	{"string([\"z\": 1, \"a\": 2, \"m\": 3, \"b\": 4, \"y\": 5])", "none", false, false},
+	{"[\"z\": 1, \"a\": 2, \"m\": 3, \"b\": 4, \"y\": 5]", "none", false, false},
+	{"string([3: \"c\", 1: \"a\", 2: \"b\", 10: \"j\"])", "none", false, false},
+	{"[true: 1, false: 2]", "none", false, false},
+	{"string(['2020-01-02 00:00:00 UTC': 1, '2019-01-02 00:00:00 UTC': 2])", "none", false, false},
+	{"union([m, m], [m])", "map", false, false},
+	{"union([[1: 2, 3: 4, 5: 6]], [[5: 6, 3: 4, 1: 2]])", "none", false, false},
+	{"intersect([mi], [mi])", "struct", false, false},
+	{"diff([o, o], [])", "map", false, false},
+	{"union(lo, lo)", "map", false, false},
+	{"[m, m] == [m, m]", "map", false, false},
+	{"string(p)", "map", false, false},
+	{"p", "struct", false, false},
+	{"[p, p]", "map", false, false},
+	{"string(union(l, l))", "map", false, false},
+	{"get(mo, \"u\", o)", "map", false, false},
+	{"{x: get(mo, \"nope\", o), y: o}", "struct", false, false},
 }
 
 func pickProg13(r *rng, user bool) Prog {
@@ -468,8 +468,15 @@ func genHist13(r *rng) *Hist13 {
 		case c < 4 || len(compiles) == 0:
 			e := r.intn(ne)
 			var p Prog
-			if len(compiles) > 0 && r.chance(0.25) {
-				p = *h.Ops[compiles[r.intn(len(compiles))]].Prog // recompile the same expression
+			if len(compiles) > 0 && r.chance(0.3) {
+				prev := h.Ops[compiles[r.intn(len(compiles))]]
+				p = *prev.Prog // recompile the same source text ...
+				if r.chance(0.7) {
+					e = prev.Eng // ... on the same engine ...
+				}
+				if p.Generic && r.chance(0.7) {
+					p.Env = genericEnvs[r.intn(4)] // ... under another typing of its names
+				}
 				if p.User && !h.Engines[e].UserFuns {
 					p = pickProg13(r, false)
 				}
